@@ -64,7 +64,7 @@ CHECKS = [
        "application panics, the error rows (arrays under non-+, booleans under ordering, negative repetition), integer relational consistency with ==. Spec.Ops is the oracle for every "
        "operator × every ordered pair of operand kinds × boundary pools + random 64-bit operands through the real VM.",
        "binary_spec is the whole table: every operator x every pair of operand values (shifts modulo 64, bytes modulo 2^8, integer/byte mixes, float rows incl. the IEEE order laws proved on Lean's Float model, string/char order and concatenation, repetition, element-wise array equality). "
-       "Two hypotheses remain: the property's memory exclusion (hugeRepeat) and convZeroRow (float / int, float % int: Int64.toFloat is an opaque constant of Lean, so `(b == 0) = (b.toFloat == 0.0)` cannot be derived; covered by the differential run)."),
+       "One hypothesis remains: the property's own memory exclusion (hugeRepeat). (For float / int and float % int the specification tests the integer divisor itself, as the statement's 'division or modulo by zero' reads.)"),
     _c("C10", "Lean refinement proof (hash-table model refines an association list under ==) + differential run on a real HMap",
        "Kernel-checked: keys equal under == feed the same byte stream to the hasher (unconditionally: the IEEE fact 'doubles that compare equal have the same bits once -0.0 is normalised' is proved from Lean's Float model — floatLaw, via injectivity of the binary64 unpacking), hence get/insert equal the association-list spec, "
        "the pairwise law, and refinement for every sequence of inserts and lookups. The real `impl Hash` is observed with a recording Hasher; a real HMap is driven through insert/get/contains/len, m[k], m[k]=v.",
